@@ -330,9 +330,7 @@ def run(tier):
         rec.add(can2)
         rej, st = C.validate(rec.events, wd, timeout=2400)
         ids = {x[1]: x for x in rej}
-        for c in (can1, can2):
-            if c["tid"] not in ids:
-                raise MachineryError("binding self-test: corrupted call event accepted")
+        canary_missing = [c["tid"] for c in (can1, can2) if c["tid"] not in ids]
         byid = {e["tid"]: e for e in rec.events}
         for tid, x in ids.items():
             if tid in (can1["tid"], can2["tid"]):
@@ -347,6 +345,8 @@ def run(tier):
                     rep.violation("C14:%s:%s" % (e["entry"].split("[")[0], x[2]), "%s: %s" % (e["entry"], x[2]), slim)
             else:
                 rep.violation("C14:%s:%s" % (e["op"], x[2].split(":")[0]), "verdict differs from the specification: %s (%s)" % (x[2], e.get("label")), slim)
+        if canary_missing and not rep.violations:
+            raise MachineryError("binding self-test: corrupted call event accepted")
         calls = [e for e in rec.events if e["op"] == "c14.call"]
         by_entry = {}
         for e in calls:
